@@ -19,7 +19,6 @@ pub use iter::*;
 pub struct PrefixMap<P, T> {
     pub(crate) table: Table<P, T>,
     free: Vec<usize>,
-    count: usize,
 }
 
 impl<P, T> Default for PrefixMap<P, T>
@@ -30,7 +29,6 @@ where
         Self {
             table: Default::default(),
             free: Vec::new(),
-            count: 0,
         }
     }
 }
@@ -47,13 +45,13 @@ where
     /// Returns the number of elements stored in `self`.
     #[inline(always)]
     pub fn len(&self) -> usize {
-        self.count
+        self.table.count()
     }
 
     /// Returns `true` if the map contains no elements.
     #[inline(always)]
     pub fn is_empty(&self) -> bool {
-        self.count == 0
+        self.table.count() == 0
     }
 
     /// Get the value of an element by matching exactly on the prefix.
@@ -361,7 +359,9 @@ where
                         inc = 1;
                     }
                     node.value = Some(value);
-                    self.count += inc;
+                    if inc == 1 {
+                        self.table.inc_count();
+                    }
                     return old_value;
                 }
                 DirectionForInsert::NewLeaf { right } => {
@@ -417,11 +417,12 @@ where
             match self.table.get_direction_for_insert(idx, &prefix) {
                 DirectionForInsert::Enter { next, .. } => idx = next,
                 DirectionForInsert::Reached if self.table[idx].value.is_some() => {
+                    let (node, count) = self.table.node_and_count(idx);
                     return Entry::Occupied(OccupiedEntry {
-                        node: &mut self.table[idx],
-                        count: &mut self.count,
+                        node,
+                        count,
                         prefix,
-                    })
+                    });
                 }
                 direction => {
                     return Entry::Vacant(VacantEntry {
@@ -516,7 +517,7 @@ where
 
         // decrease the count if the value is something
         if value.is_some() {
-            self.count -= 1;
+            self.table.dec_count();
         }
 
         value
@@ -596,7 +597,7 @@ where
             left: None,
             right: None,
         });
-        self.count = 0;
+        self.table.reset_count();
     }
 
     /// Keep only the elements in the map that satisfy the given condition `f`.
@@ -773,7 +774,9 @@ where
                 to_free.push(right)
             }
             self.free.push(idx);
-            self.count -= dec;
+            if dec == 1 {
+                self.table.dec_count();
+            }
         }
     }
 
@@ -782,7 +785,7 @@ where
     #[inline(always)]
     fn new_node(&mut self, prefix: P, value: Option<T>) -> usize {
         if value.is_some() {
-            self.count += 1;
+            self.table.inc_count();
         }
         if let Some(idx) = self.free.pop() {
             let node = &mut self.table[idx];
@@ -822,7 +825,7 @@ where
 
         // decrease the number of elements if value is something
         if value.is_some() {
-            self.count -= 1;
+            self.table.dec_count();
         }
 
         if has_left && has_right {
